@@ -343,6 +343,32 @@ func init() {
 		Post: heldPost,
 	})
 	eng.Register(&eng.Scenario{
+		Name: "cc-equal-validator", Props: []string{"C15"}, ObsNames: stdObs,
+		Doc:   "CContainer with custom equality (x == y mod 2): a WaitValueWithValidator(v>=2) waiter and a WaitValueChange(0) waiter against SwapValue / SetValue writers producing 2 (equal to 0 under the custom equality), then 3: whatever the cell finally holds, a waiter whose condition it satisfies may not stay parked",
+		Quick: eng.Bounds{PB: 2}, Thorough: eng.Bounds{PB: 3},
+		Body: func() {
+			c := ccontainer.NewCContainerWithEqual[int](0, mod2)
+			viaSet := vsched.Choose(2) == 1
+			third := vsched.Choose(2) == 1
+			T("W1", func() { ccWait(c, 1, wValid, 0, mod2, bg, nil) })
+			T("W2", func() { ccWait(c, 2, wChange, 0, mod2, bg, nil) })
+			T("A", func() {
+				if viaSet {
+					vsched.Observe(oOp, 2, 0, 0)
+					c.SetValue(2)
+				} else {
+					vsched.Observe(oOp, 2, 0, 0) // a value equal under the custom equality may or may not be stored
+					c.SwapValue(func(int) int { return 2 })
+				}
+				if third {
+					c.SwapValue(func(v int) int { vsched.Observe(oVal, 3, 0, 0); return 3 })
+				}
+			})
+			finalWaiters(c, mod2, map[int]int{})
+		},
+		Post: heldPost,
+	})
+	eng.Register(&eng.Scenario{
 		Name: "cc-errch", Props: []string{"C15"}, ObsNames: stdObs,
 		Doc:   "CContainer: WaitValue with a cancellable context and an error channel; a sender delivers {error, nil, close} (choice), a canceller cancels, a writer may set the value; the returned error must come from a source that fired",
 		Quick: eng.Bounds{PB: 2}, Thorough: eng.Bounds{PB: 3},
